@@ -391,6 +391,29 @@ def _itemlab(ctx, kids):
     ctx.close()
 
 
+@reg('itemlabpunct', slots=2, cls='gen')
+def _itemlabpunct(ctx, kids):
+    # an \item[label] behind text that ends with a punctuation mark: the mark is repeated behind the label
+    ctx.copy(':')
+    ctx.gap()
+    ctx.open('itemlab-frame', WS)
+    ctx.items.append(0)
+    ctx.w('\\begin{itemize}')
+    ctx.gap()
+    n = ctx.open('itemlab-item', WS)
+    ctx.w('\\item[')
+    slot(ctx, kids[0], optslot=True)
+    ctx.w(']')
+    ctx.gen(':', n)
+    ctx.w(' ')
+    ctx.close()
+    slot(ctx, kids[1])
+    ctx.gap()
+    ctx.w('\\end{itemize}')
+    ctx.items.pop()
+    ctx.close()
+
+
 @reg('proof', slots=1, cls='gen', par=True)
 def _proof(ctx, kids):
     ctx.open('proof-frame', WS)
